@@ -6,14 +6,15 @@ Open Scope Z_scope.
 
 Section ByLoop.
 Variable mx : Z.
+Variable kp : Z.
 
 Definition WLB (f : nat) : Prop := forall tnt x d w acc t b,
-  J mx tnt x d (Some w) t -> quiet_off t -> G mx x (Some w) -> hole_ok x w -> ~ In w (pw_cancel_cos x) -> pw_ts x = [] ->
+  J mx kp tnt x d (Some w) t -> quiet_off t -> G mx x (Some w) -> hole_ok x w -> ~ In w (pw_cancel_cos x) -> pw_ts x = [] ->
   BI (pw_workers x) b ->
   exists x' evs out, wloop f x w acc = (x', acc ++ evs, out) /\ BI (pw_workers x') (fold_left by_ev evs b).
 
 Lemma wlb_chain f tnt x1 d w acc e t b :
-  WLB f -> J mx tnt x1 d (Some w) (fold_left pev e t) -> quiet_off t -> G mx x1 (Some w) -> hole_ok x1 w ->
+  WLB f -> J mx kp tnt x1 d (Some w) (fold_left pev e t) -> quiet_off t -> G mx x1 (Some w) -> hole_ok x1 w ->
   ~ In w (pw_cancel_cos x1) -> pw_ts x1 = [] -> BI (pw_workers x1) (fold_left by_ev e b) ->
   exists x' evs out, wloop f x1 w (acc ++ e) = (x', acc ++ evs, out) /\ BI (pw_workers x') (fold_left by_ev evs b).
 Proof.
@@ -24,7 +25,7 @@ Proof.
 Qed.
 
 Lemma wlb_chain0 f tnt x1 d w acc t b :
-  WLB f -> J mx tnt x1 d (Some w) t -> quiet_off t -> G mx x1 (Some w) -> hole_ok x1 w ->
+  WLB f -> J mx kp tnt x1 d (Some w) t -> quiet_off t -> G mx x1 (Some w) -> hole_ok x1 w ->
   ~ In w (pw_cancel_cos x1) -> pw_ts x1 = [] -> BI (pw_workers x1) b ->
   exists x' evs out, wloop f x1 w acc = (x', acc ++ evs, out) /\ BI (pw_workers x') (fold_left by_ev evs b).
 Proof.
@@ -37,7 +38,7 @@ Lemma WLB_0 : WLB 0.
 Proof. intros tnt x d w acc t b HJ Hq HG Hh Hncc Hts HB. exists x, [], WFuel. cbn [wloop fold_left]. rewrite app_nil_r. auto. Qed.
 
 Lemma wlb_finish f tnt x d w acc t b k i rest r e :
-  WLB f -> J mx tnt x d (Some w) t -> quiet_off t -> get_worker x w = Some k -> live k = true -> k_dead k = false ->
+  WLB f -> J mx kp tnt x d (Some w) t -> quiet_off t -> get_worker x w = Some k -> live k = true -> k_dead k = false ->
   k_tpool k = 0%nat -> imode (k_st k) = Some MRun -> k_task k = Some (i, rest) ->
   ~ In w (pw_cancel_cos x) -> pw_ts x = [] -> pev t e = fin_trk t i r -> r = body_outcome rest ->
   (exists v, e = EB i (BRet v)) \/ (exists pk, e = EB i (BPanic pk)) ->
@@ -47,8 +48,8 @@ Lemma wlb_finish f tnt x d w acc t b k i rest r e :
     BI (pw_workers x') (fold_left by_ev evs b).
 Proof.
   intros HW HJ Hq Hk Hl Hdead Htp Him Htask Hncc Hts Hev Hrout He HB.
-  destruct (J_finish mx tnt x d w t k i rest r HJ Hq Hk Hl Htask Hrout) as (xf & Ef & HJ' & Hm & Hw' & HG').
-  pose proof (finish_workers x w k i r xf (jp_pools _ _ _ (j_p _ _ _ _ _ _ _ HJ)) Ef) as Ews.
+  destruct (J_finish mx kp tnt x d w t k i rest r HJ Hq Hk Hl Htask Hrout) as (xf & Ef & HJ' & Hm & Hw' & HG').
+  pose proof (finish_workers x w k i r xf (jp_pools _ _ _ _ (j_p _ _ _ _ _ _ _ _ HJ)) Ef) as Ews.
   rewrite Ef. cbn [fin_cont]. cbv zeta in HJ', Hm, Hw', HG'. set (xg := upd_pool xf 0 (p_with_popfail 0)) in *.
   destruct Hm as [M1 M2 M3 M4 M5 M6].
   eapply (wlb_chain f tnt xg d w acc [e] t b HW).
@@ -59,25 +60,25 @@ Proof.
   - rewrite M1. exact Hncc.
   - rewrite M2. exact Hts.
   - cbn [fold_left]. rewrite Ews. unfold get_worker in Hk. eapply BI_end; try eassumption.
-    intros v kv r' Hne Hv Hkv. apply Hne. eapply (jt_inj _ _ _ _ _ _ _ _ (j_t _ _ _ _ _ _ _ HJ)); eassumption.
+    intros v kv r' Hne Hv Hkv. apply Hne. eapply (jt_inj _ _ _ _ _ _ _ _ (j_t _ _ _ _ _ _ _ _ HJ)); eassumption.
 Qed.
 
 Lemma WLB_S f : WLB f -> WLB (S f).
 Proof.
   intros HW tnt x d w acc t b HJ Hq HG Hh Hncc Hts HB.
   destruct Hh as (k & m & Hk & Hl & Hdead & Htp & Him & Hbody).
-  pose proof (jp_cur _ _ _ (j_p _ _ _ _ _ _ _ HJ)) as Hcur.
-  pose proof (jp_pools _ _ _ (j_p _ _ _ _ _ _ _ HJ)) as Hpools.
+  pose proof (jp_cur _ _ _ _ (j_p _ _ _ _ _ _ _ _ HJ)) as Hcur.
+  pose proof (jp_pools _ _ _ _ (j_p _ _ _ _ _ _ _ _ HJ)) as Hpools.
   rewrite (wloop_S f x w acc k Hk). cbv zeta. rewrite Hcur, ?Htp.
   destruct (k_task k) as [[i body]|] eqn:Htask.
   - destruct body as [|ins rest].
     + apply body_from_nil in Hbody. subst m.
       eapply (wlb_finish f tnt x d w acc t b k i [] (TOk 0) _ HW HJ Hq Hk Hl Hdead Htp Him Htask Hncc Hts); try reflexivity; [left; eauto | exact HB].
     + set (k0 := with_task k (Some (i, rest))). set (x0 := upd_worker x w k0).
-      assert (body_outcome (ins :: rest) = body_outcome rest -> J mx tnt x0 d (Some w) t) as HJ0'.
-      { intro Hout. apply (J_hole_upd mx tnt x d w t k k0 HJ Hk); [reflexivity | unfold tid; rewrite Htask; reflexivity|].
+      assert (body_outcome (ins :: rest) = body_outcome rest -> J mx kp tnt x0 d (Some w) t) as HJ0'.
+      { intro Hout. apply (J_hole_upd mx kp tnt x d w t k k0 HJ Hk); [reflexivity | reflexivity | unfold tid; rewrite Htask; reflexivity|].
         intros i' rest' E. cbn [k0 with_task k_task] in E. injection E as <- <-.
-        destruct (jt_suf _ _ _ _ _ _ _ _ (j_t _ _ _ _ _ _ _ HJ) _ _ _ _ Hk Htask) as [S1 S2]. cbn [length] in S2.
+        destruct (jt_suf _ _ _ _ _ _ _ _ (j_t _ _ _ _ _ _ _ _ HJ) _ _ _ _ Hk Htask) as [S1 S2]. cbn [length] in S2.
         split; [rewrite <- Hout; exact S1 | lia]. }
       assert (G mx x0 (Some w)) as HG0.
       { apply (G_upd_same mx x (Some w) w k k0 HG Hk); [reflexivity|]. congruence. }
@@ -101,7 +102,7 @@ Proof.
         rewrite (tr_syscall_imode _ _ y name st Him Hname).
         assert (exists m', imode (Syscall y name st) = Some m' /\ body_from m' rest = true) as (m' & Him' & Hbody').
         { destruct st; try discriminate; cbn [imode]; eauto. }
-        destruct (J_k_change mx tnt x0 d w t k0 (Syscall y name st) HJ0 Hq Hk0 Hl0 ltac:(discriminate))
+        destruct (J_k_change mx kp tnt x0 d w t k0 (Syscall y name st) HJ0 Hq Hk0 Hl0 ltac:(discriminate))
           as (x1 & Ekc & HJ1 & Hm1 & Hk1 & HG1a & HG1b & HG1c).
         pose proof (k_change_tids x0 w (Syscall y name st) x1 _ Hpools Hcur Ekc) as Ht1.
         rewrite Ekc. destruct Hm1 as [M1 M2 M3 M4 M5 M6].
@@ -118,7 +119,7 @@ Proof.
            eapply (wlb_chain f tnt x0 d w acc [EB i (BRes true)] t b HW); [exact HJ0 | exact Hq | exact HG0 | | exact Hncc0 | exact Hts0 | exact HB0].
            apply (Hh0 MRun); [exact Him | exact Hbody].
         -- destruct (imode_MExec _ _ Him) as [y0 Est]. rewrite Est. cbn [tr_running].
-           destruct (J_k_change mx tnt x0 d w t k0 Running HJ0 Hq Hk0 Hl0 ltac:(discriminate))
+           destruct (J_k_change mx kp tnt x0 d w t k0 Running HJ0 Hq Hk0 Hl0 ltac:(discriminate))
              as (x1 & Ekc & HJ1 & Hm1 & Hk1 & HG1a & HG1b & HG1c).
            pose proof (k_change_tids x0 w Running x1 _ Hpools Hcur Ekc) as Ht1.
            rewrite Ekc. destruct Hm1 as [M1 M2 M3 M4 M5 M6].
@@ -148,18 +149,18 @@ Proof.
         eapply (wlb_finish f tnt x d w acc t b k i (IPanic pk :: rest) (TErr (task_msg pk)) _ HW HJ Hq Hk Hl Hdead Htp Him Htask Hncc Hts); try reflexivity; [right; eauto | exact HB].
       * discriminate.
   - subst m. pose proof (imode_MRun _ Him) as Est.
-    pose proof (jq_t _ _ (j_q _ _ _ _ _ _ _ HJ)) as HQt.
+    pose proof (jq_t _ _ (j_q _ _ _ _ _ _ _ _ HJ)) as HQt.
     destruct (lpop (pw_tq x) 0 0) as [q' r] eqn:Epop.
     destruct (Q1_lpop_cases _ _ _ _ HQt Epop) as [HQ' [(tz & -> & Hcnt)|(-> & Hnil & Hnil')]].
     + destruct (Sched.mem_nat (Z.to_nat tz) (pw_cancel_tasks x)) eqn:Em.
-      * destruct (J_pop_cancel mx tnt x d w t k q' tz HJ Hq Hk Hl HQ' Hcnt Em) as (HJ1 & Ecc1 & Ets1 & Hk1 & Etb1).
+      * destruct (J_pop_cancel mx kp tnt x d w t k q' tz HJ Hq Hk Hl HQ' Hcnt Em) as (HJ1 & Ecc1 & Ets1 & Hk1 & Etb1).
         cbv zeta in *. set (xg := pop_cancel x 0 q' (Z.to_nat tz)) in *.
         destruct (pop_cancel_post x q' (Z.to_nat tz) Hpools) as (W0 & R0 & N0 & Hu0 & _). fold xg in Hu0.
         eapply (wlb_chain0 f tnt xg d w acc t b HW); [exact HJ1 | exact Hq | | | congruence | congruence |].
         -- eapply G_idle; eassumption.
         -- eapply hole_ok_intro; [exact Hk1 | exact Hl | exact Hdead | exact Htp | rewrite Est; reflexivity | rewrite Htask; reflexivity].
         -- rewrite (up_ws _ _ _ _ _ _ _ Hu0). exact HB.
-      * destruct (J_pop_start mx tnt x d w t k q' tz HJ Hq Hk Hl Htask Hncc HQ' Hcnt Em) as (HJ1 & Ecc1 & Ets1 & Etb1 & Hk1 & Hb1).
+      * destruct (J_pop_start mx kp tnt x d w t k q' tz HJ Hq Hk Hl Htask Hncc HQ' Hcnt Em) as (HJ1 & Ecc1 & Ets1 & Etb1 & Hk1 & Hb1).
         cbv zeta in *. set (xg := pop_start x 0 q' (Z.to_nat tz) w k) in *.
         eapply (wlb_chain f tnt xg d w acc [EB (Z.to_nat tz) (BStart (Z.of_nat w))] t b HW); [exact HJ1 | exact Hq | | | congruence | congruence |].
         -- right. right. eexists w, _. split; [exact Hk1|]. split; [exact Hl|]. right. split; [reflexivity|].
@@ -167,12 +168,22 @@ Proof.
         -- eapply hole_ok_intro; [exact Hk1 | exact Hl | exact Hdead | reflexivity | cbn [k_st]; rewrite Est; reflexivity | exact Hb1].
         -- cbn [fold_left]. unfold xg, pop_start. autorewrite with pw. unfold get_worker in Hk.
            eapply BI_start; [exact HB | exact Hk|]. right. eexists. reflexivity.
-    + autorewrite with pw.
-      pose proof (j_p _ _ _ _ _ _ _ HJ) as [P1 P2 P3 P4 P5 P6 P7 P8 P9 P10 P11 P12].
-      pose proof (nlive_pos _ _ _ Hk Hl) as Hpos.
-      assert ((p_keep (get_pool x 0) <=? sat_sub (pw_clock x) (k_create k)) && (p_min (get_pool x 0) <? p_running (get_pool x 0)) = true) as ->.
-      { unfold sat_sub. apply andb_true_iff. split; lia. }
-      cbn [orb]. exists (set_tq x q'), [], WReturn. rewrite app_nil_r. split; [reflexivity|]. exact HB.
+    + pose proof (J_pop_none mx kp tnt x d (Some w) t q' HJ HQ' Hnil Hnil') as HJ1.
+      pose proof (j_p _ _ _ _ _ _ _ _ HJ) as [P1 P2 P3 P4 P5 P6 P7 P8 P9 P10 P11 P12]. autorewrite with pw.
+      set (x1 := set_tq x q') in *.
+      destruct (((p_keep (get_pool x 0) <=? sat_sub (pw_clock x) (k_create k)) && (p_min (get_pool x 0) <? p_running (get_pool x 0)))
+                || negb (match p_state (get_pool x 0) with PRunning => true | _ => false end)) eqn:Econd.
+      * exists x1, [], WReturn. rewrite app_nil_r. split; [reflexivity | exact HB].
+      * destruct P3 as (Ekp & Hc0 & Hcr & Hpf0).
+        destruct (p_popfail (get_pool x 0) + 1 <? p_running (get_pool x 0)) eqn:Epf.
+        -- eexists _, [], WYield. rewrite app_nil_r. split; [reflexivity | exact HB].
+        -- set (c1 := sat_add64 (pw_clock x) 1000000).
+           set (x2 := set_clockp (upd_pool x1 0 (p_with_popfail 0)) c1).
+           destruct (sat_add64_mono (pw_clock x) 1000000 P10 ltac:(lia)) as [Hc1 Hc2]. fold c1 in Hc1, Hc2.
+           assert (J mx kp tnt x2 d (Some w) t) as HJ2 by (apply J_clockp; [apply J_popfail; [exact HJ1 | lia] | exact Hc1 | exact Hc2]).
+           assert (get_worker x2 w = Some k) as Hk2 by exact Hk.
+           eapply (wlb_chain0 f tnt x2 d w acc t b HW HJ2 Hq); [left; exact Hnil' | | exact Hncc | exact Hts | exact HB].
+           eapply hole_ok_intro; [exact Hk2 | exact Hl | exact Hdead | exact Htp | rewrite Est; reflexivity | rewrite Htask; reflexivity].
 Qed.
 
 Theorem wloop_BI : forall f, WLB f.
